@@ -4,6 +4,7 @@ package main
 // signer sets / batches / contract calls, relayer-facing queries.
 
 import (
+	"os"
 	"bytes"
 	"strings"
 	"crypto/ecdsa"
@@ -132,7 +133,7 @@ func observeReg(env *Env, otxs []regOtx, askers []sdk.AccAddress) V {
 	return L(Set(ve...), Set(ov...), Set(eo...), Set(confs...), Set(uns...))
 }
 
-func runRegCase(seed uint64, nOps int, stats map[string]int) (V, V) {
+func runRegCase(seed uint64, nOps int, restart bool, stats map[string]int) (V, V) {
 	rng := &Rng{s: seed}
 	env := NewEnv(EnvOpts{Params: DefaultTestParams(regChains), Tokens: nil})
 	nVals := 2 + rng.Intn(4)
@@ -341,6 +342,14 @@ func runRegCase(seed uint64, nOps int, stats map[string]int) (V, V) {
 			otxs = append(otxs, regOtx{chain, otx})
 			setOtxs()
 		}
+	}
+	if restart {
+		code, m := outcome(func() error { env.Restart(); return nil })
+		if code != 0 && os.Getenv("VERIF_DEBUG") != "" {
+			fmt.Fprintln(os.Stderr, "restart:", m)
+		}
+		stats[fmt.Sprintf("restart_code%d", code)]++
+		record(L(I(9)), code)
 	}
 	var cv []V
 	for _, c := range regChains {
